@@ -50,15 +50,22 @@ type Expect = Result<Option<(Vec<u8>, Option<String>)>, u64>;
 /// The result and the request sequence the property prescribes for a given server.
 fn expected(art: &ArtStore, uri: &str) -> (Expect, Vec<(String, String, usize)>) {
     let mut reqs = Vec::new();
-    let chunks = |cmd: &str, data: &Vec<u8>, reqs: &mut Vec<(String, String, usize)>| {
+    // returns the ACK code if the server refuses a continuation request
+    let chunks = |cmd: &str, data: &Vec<u8>, reqs: &mut Vec<(String, String, usize)>| -> Option<u64> {
         let mut off = 0;
         loop {
             reqs.push((cmd.to_string(), uri.to_string(), off));
+            if let Some((from, code)) = art.ack_from_offset {
+                if off >= from && from > 0 {
+                    return Some(code);
+                }
+            }
             off += art.limit.min(data.len() - off);
             if off >= data.len() {
                 break;
             }
         }
+        None
     };
     // embedded first
     reqs.push(("readpicture".into(), uri.to_string(), 0));
@@ -72,7 +79,9 @@ fn expected(art: &ArtStore, uri: &str) -> (Expect, Vec<(String, String, usize)>)
             None => fallback = true,
             Some((d, m)) => {
                 reqs.pop();
-                chunks("readpicture", d, &mut reqs);
+                if let Some(code) = chunks("readpicture", d, &mut reqs) {
+                    return (Err(code), reqs);
+                }
                 return (Ok(Some((d.clone(), m.clone()))), reqs);
             }
         }
@@ -86,7 +95,9 @@ fn expected(art: &ArtStore, uri: &str) -> (Expect, Vec<(String, String, usize)>)
         None => (Ok(None), reqs),
         Some(d) => {
             reqs.pop();
-            chunks("albumart", d, &mut reqs);
+            if let Some(code) = chunks("albumart", d, &mut reqs) {
+                return (Err(code), reqs);
+            }
             (Ok(Some((d.clone(), None))), reqs)
         }
     }
@@ -108,7 +119,7 @@ impl Property for C17 {
         let per_round = grid.len() + specials;
         let reps = cfg.tier.pick(2, 6) as usize;
         let uri = URIS[(i % URIS.len() as u64) as usize];
-        let mut art = ArtStore { embedded: None, cover: None, limit: 64, readpicture_supported: true, embedded_ack: 0, cover_ack: 0, ack_after_partial_output: i % 2 == 1 };
+        let mut art = ArtStore { embedded: None, cover: None, limit: 64, readpicture_supported: true, embedded_ack: 0, cover_ack: 0, ack_after_partial_output: i % 2 == 1, ack_from_offset: None };
         let k = (i as usize) % per_round;
         let mut class = String::new();
         if (i as usize) < per_round * reps {
@@ -197,7 +208,13 @@ impl Property for C17 {
                     art.embedded_ack = 5;
                 }
             }
-            class = format!("random limit={} size={}", art.limit, size);
+            // the file vanishes or changes while it is being loaded: a later chunk request is answered with an ACK
+            if size > art.limit && r.chance(1, 4) {
+                let k = r.range(1, (size / art.limit).max(1));
+                art.ack_from_offset = Some((k * art.limit, *r.pick(&[50u64, 52, 2, 56])));
+                acc.inc("loads_with_a_refused_continuation_request");
+            }
+            class = format!("random limit={} size={} refused from {:?}", art.limit, size, art.ack_from_offset);
         }
 
         let mut sc = Scenario::new("album-art", mix(&[cfg.seed, 17, i]));
@@ -209,7 +226,7 @@ impl Property for C17 {
         if i % 3 == 2 {
             for k in 0..r.range(1, 3) {
                 let u = format!("earlier song {}/{}.mp3", k, r.below(1000));
-                let mut a2 = ArtStore { embedded: None, cover: None, limit: art.limit, readpicture_supported: art.readpicture_supported, embedded_ack: 0, cover_ack: 0, ack_after_partial_output: false };
+                let mut a2 = ArtStore { embedded: None, cover: None, limit: art.limit, readpicture_supported: art.readpicture_supported, embedded_ack: 0, cover_ack: 0, ack_after_partial_output: false, ack_from_offset: None };
                 match r.below(5) {
                     0 => {} // neither has data
                     1 => a2.cover = Some(picture(&mut r, 10)),
@@ -372,7 +389,7 @@ impl Property for C17 {
     fn meta(&self, _cfg: &Cfg, _acc: &Acc) -> Meta {
         Meta {
             level: "exploration",
-            rule: "Client::album_art against the simulated server holding the picture: directed grid of chunk limits {1,2,64,4096,8192} x sizes {0,1,limit-1,limit,limit+1,2*limit,3*limit+7,5000,70000} x source {embedded, cover file reached through an empty readpicture reply or through ACK 5} x MIME present (incl. the empty string)/absent; in a third of the cases the same client has first loaded the art of 1-2 OTHER songs with different outcomes (nothing, cover only, embedded, errors), whose results are checked too; every other ACK code {1,2,3,4,50,52,56} on either command (must propagate), neither source, zero-byte pictures, albumart unknown; plus random sizes/limits; payloads incl. protocol look-alikes; 0-2 other callers and notifications running concurrently, chopped replies, read caps; oracle: returned bytes and MIME equal the stored picture / None / the server's error code, and the request lines seen by the server are readpicture|albumart <uri> <offset> in the documented fallback order with offsets starting at 0, strictly increasing, never skipping bytes, finitely many (the minimal sequence 0, limit, 2*limit, ... is counted separately); non-trivial = load with >=2 chunks; distinct by (limit, size class, source, mime, concurrency)".into(),
+            rule: "Client::album_art against the simulated server holding the picture: directed grid of chunk limits {1,2,64,4096,8192} x sizes {0,1,limit-1,limit,limit+1,2*limit,3*limit+7,5000,70000} x source {embedded, cover file reached through an empty readpicture reply or through ACK 5} x MIME present (incl. the empty string)/absent; in a third of the cases the same client has first loaded the art of 1-2 OTHER songs with different outcomes (nothing, cover only, embedded, errors), whose results are checked too; a quarter of the random multi-chunk loads have a continuation request refused with an ACK, which must be propagated; every other ACK code {1,2,3,4,50,52,56} on either command (must propagate), neither source, zero-byte pictures, albumart unknown; plus random sizes/limits; payloads incl. protocol look-alikes; 0-2 other callers and notifications running concurrently, chopped replies, read caps; oracle: returned bytes and MIME equal the stored picture / None / the server's error code, and the request lines seen by the server are readpicture|albumart <uri> <offset> in the documented fallback order with offsets starting at 0, strictly increasing, never skipping bytes, finitely many (the minimal sequence 0, limit, 2*limit, ... is counted separately); non-trivial = load with >=2 chunks; distinct by (limit, size class, source, mime, concurrency)".into(),
             nontrivial_set: "nontrivial",
             assumptions: vec![
                 "well-behaved server: never a 0-byte chunk before the end, constant `size`".into(),
